@@ -168,9 +168,46 @@ fn direct_violation(op: Op, l: &Value, r: &Value) -> Option<(String, String)> {
     None
 }
 
+/// Membership over *lists of lists* ("lists of these" in the property's quantifier): every member of a `one_of` /
+/// `contains` pair is wrapped into a list behind a shared prefix whose integers are re-encoded at random (Int64 vs
+/// Uint64), so membership has to compare nested lists by numeric value too. Decoded from the choices that follow the
+/// pair, so the pair itself is decoded exactly as before.
+fn lift_membership(c: &mut Choices<'_>, op: Op, l: Value, r: Value) -> (Value, Value) {
+    let pre: Vec<Value> = (0..c.below(3)).map(|_| gen_scalar_kind(c, 0)).collect();
+    fn reencode(c: &mut Choices<'_>, v: &Value) -> Value {
+        match v {
+            Value::Int { v: i, unsigned } if c.chance(128) => Value::Int { v: *i, unsigned: !*unsigned },
+            _ => v.clone(),
+        }
+    }
+    let wrap = |c: &mut Choices<'_>, x: &Value, same: bool| -> Value {
+        let mut items: Vec<Value> = pre.iter().map(|p| if same { p.clone() } else { reencode(c, p) }).collect();
+        items.push(x.clone());
+        Value::List(items)
+    };
+    match (op, &l, &r) {
+        (Op::OneOf | Op::NotOneOf, l0, Value::List(items)) if !matches!(l0, Value::Null) => {
+            let nl = wrap(c, l0, true);
+            let nr = Value::List(items.iter().map(|x| wrap(c, x, false)).collect());
+            (nl, nr)
+        }
+        (Op::Contains | Op::NotContains, Value::List(items), r0) if !matches!(r0, Value::Null) => {
+            let nr = wrap(c, r0, true);
+            let nl = Value::List(items.iter().map(|x| wrap(c, x, false)).collect());
+            (nl, nr)
+        }
+        _ => (l, r),
+    }
+}
+
 pub fn c07_direct_case(bytes: &[u8], stats: &mut Stats, counting: bool) -> Verdict {
     let mut c = Choices::new(bytes);
     let (op, l, r) = gen_direct(&mut c);
+    let lifted = matches!(op, Op::OneOf | Op::NotOneOf | Op::Contains | Op::NotContains) && c.chance(64);
+    let (l, r) = if lifted { lift_membership(&mut c, op, l, r) } else { (l, r) };
+    if counting && lifted {
+        stats.label("membership_over_lists_of_lists");
+    }
     if counting {
         stats.label(&format!("op:{}", op.name()));
         if interesting(&l, &r) && stats.nontrivial(format!("{}{l:?}{r:?}", op.name()).as_bytes()) {
